@@ -125,13 +125,36 @@ func goroutineJoin(c *Ctx) {
 			adds = append(adds, call)
 		}
 	}
-	c.R.Count("go statements in start", len(gos))
-	c.R.Floor("go statements in start", len(gos), 3)
-	for i, g := range gos {
-		target := g.Common().StaticCallee()
+	// one entry per started function: a go statement in a loop over a table of functions starts each of them
+	type launch struct {
+		g      *ssa.Go
+		target *ssa.Function
+		inLoop bool
+	}
+	var ls []launch
+	for _, g := range gos {
+		ts := c.goTargets(g)
+		if len(ts) == 0 {
+			ls = append(ls, launch{g, nil, false})
+		}
+		for _, t := range ts {
+			ls = append(ls, launch{g, t, len(ts) > 1})
+		}
+	}
+	c.R.Count("go statements in start", len(ls))
+	c.R.Floor("go statements in start", len(ls), 3)
+	for i, l := range ls {
+		g, target := l.g, l.target
 		key := fmt.Sprintf("start:go#%d(%s)", i+1, shortFn(target))
 		nd := 0
 		for _, a := range adds {
+			if l.inLoop {
+				// per iteration: an Add in the loop body before the go statement of the same iteration
+				if a.Block() == g.Block() && ir.Before(a, g) || a.Block() != g.Block() && a.Block().Dominates(g.Block()) && blockReaches(g.Block(), a.Block()) {
+					nd = i + 1
+				}
+				continue
+			}
 			if ir.Before(a, g) {
 				// Add(k) with a constant k counts k times
 				k := 1
@@ -756,6 +779,25 @@ func (c *Ctx) isServicesSnapshot(v ssa.Value, depth int) bool {
 			}
 		}
 		return true
+	}
+	return false
+}
+
+// blockReaches: b is reachable from a through at least one edge.
+func blockReaches(a, b *ssa.BasicBlock) bool {
+	seen := map[*ssa.BasicBlock]bool{}
+	work := append([]*ssa.BasicBlock(nil), a.Succs...)
+	for len(work) > 0 {
+		x := work[len(work)-1]
+		work = work[:len(work)-1]
+		if x == b {
+			return true
+		}
+		if seen[x] {
+			continue
+		}
+		seen[x] = true
+		work = append(work, x.Succs...)
 	}
 	return false
 }
